@@ -328,4 +328,26 @@ def install(instrument, clock=None, rec=None):
     return sessions
 
 
+def install_multi(instruments, clock=None, rec=None):
+    """Several instruments on the bus: `instruments` maps a VISA address to a SimInstrument; open_resource(addr)
+    hands out a FakeSession bound to the instrument at that address.  Returns {addr: [sessions]}."""
+    import opticomlib.lab as lab
+    sessions = {a: [] for a in instruments}
+
+    class RM:
+        def __init__(self, *a, **k):
+            pass
+
+        def open_resource(self, addr, *a, **k):
+            s = FakeSession(instruments[addr], clock, rec)
+            sessions[addr].append(s)
+            return s
+
+        def list_resources(self):
+            return tuple(instruments)
+
+    lab.visa = types.SimpleNamespace(ResourceManager=RM, errors=_ve, constants=_vc, VisaIOError=_ve.VisaIOError)
+    return sessions
+
+
 VisaIOError = _ve.VisaIOError
